@@ -303,6 +303,7 @@ EXPORT char *_strtok_s_chk(char *restrict dest, rsize_t *restrict dmaxp,
      * need to continue the scan.
      */
     if (ptoken == NULL) {
+        *ptr = dest; /* nothing left: later calls see the end of the string */
         *dmaxp = dlen;
         return (ptoken);
     }
@@ -357,6 +358,7 @@ EXPORT char *_strtok_s_chk(char *restrict dest, rsize_t *restrict dmaxp,
         dlen--;
     }
 
+    *ptr = dest; /* the token ran up to the terminator: continue there */
     *dmaxp = dlen;
     return (ptoken);
 }
